@@ -95,3 +95,17 @@ Theorem C06_bootstrap_pair_p_range : forall a b : list (option R),
   / INR n <= boot_pair ROps a b <= 1.
 Proof. exact boot_pair_range. Qed.
 Print Assumptions C06_bootstrap_pair_p_range.
+
+(* model means are NaN-aware: a missing (NaN) evaluation does not enter the average; with nothing missing it is the plain mean;
+   with everything missing it is missing *)
+Theorem C06_nanmean_ignores_missing : forall a b : list (option R), nanmean ROps (a ++ None :: b) = nanmean ROps (a ++ b).
+Proof. exact nanmean_ignores_missing. Qed.
+Print Assumptions C06_nanmean_ignores_missing.
+
+Theorem C06_nanmean_all_present : forall xs : list R, xs <> [] -> nanmean ROps (map Some xs) = Some (mean ROps xs).
+Proof. exact nanmean_all_present. Qed.
+Print Assumptions C06_nanmean_all_present.
+
+Theorem C06_nanmean_nothing_present : forall n, nanmean ROps (repeat None n) = None.
+Proof. exact nanmean_nothing_present. Qed.
+Print Assumptions C06_nanmean_nothing_present.
